@@ -178,7 +178,15 @@ def _run(chk, wd, proved):
     import c11_events
     from supervisor import events, process, states
     from supervisor.compat import as_bytes
-    from supervisor.options import decode_wait_status
+    from supervisor.options import decode_wait_status as _real_decode_wait_status
+
+    def true_exit_status(sts):
+        # POSIX wait status, decoded here and not by the code under test: low 7 bits = terminating
+        # signal (0: exited), 0x80 = core flag, next byte = exit status
+        return (sts >> 8) & 0xff if (sts & 0x7f) == 0 else -1
+
+    def decode_wait_status(sts):
+        return (true_exit_status(sts), None)
     rng = chk.rng
     quick = chk.tier == 'quick'
     # at most 3 replays per kind of failure (the first ones, which are the smallest inputs)
@@ -699,7 +707,7 @@ def _run(chk, wd, proved):
         distinct.add(('proc', step[0], snap[0], p.state, raised, tuple(c for c, _ in rendered)))
         # monitor: one notification per state change, with the values that held at the change
         if all(c not in (name + (group or '')) for c in ' :\n'):
-            _judge_proc(chk, snap, step, p, rendered, name, group, raised)
+            _judge_proc(chk, snap, step, p, rendered, name, group, raised, cfg)
         return raised
 
     PS = states.ProcessStates
@@ -718,6 +726,21 @@ def _run(chk, wd, proved):
                         for grp in ('g', None):
                             p = I.make_subprocess('p', grp, st, 4711, 2, killing, laststart, startsecs, exitcodes)
                             do_step(p, 'p', grp, ('finish', sts, now), {'startsecs': startsecs, 'exitcodes': list(exitcodes)})
+    # exit statuses 128..255 and signal deaths (with and without the core flag) x exitcodes lists
+    wt_c, wt_m = part('wait', 'Z * list Z * Z * bool', 'check_wait')
+    HIGH = [128 << 8, 130 << 8, 143 << 8, 255 << 8, 2 << 8, 127 << 8, 9, 15, 9 | 0x80, 15 | 0x80]
+    CODELISTS = [(0, 2), (0, 130), (143,), (255, 2), (127,), (0,), ()]
+    for sts in HIGH:
+        for exitcodes in CODELISTS:
+            r_es = _real_decode_wait_status(sts)[0]
+            wt_c.append('(%s, %s, %s, %s)' % (zlit(sts), zlist(list(exitcodes)), zlit(r_es), blit(r_es in exitcodes)))
+            wt_m.append((sts, list(exitcodes)))
+            if r_es != true_exit_status(sts):
+                chk.violation({'kind': 'decode_wait_status does not return the exit status of the child', 'wait_status': sts,
+                               'returned': r_es, 'true_exit_status': true_exit_status(sts)})
+            for st in (PS.RUNNING, PS.STARTING):
+                p = I.make_subprocess('p', 'g', st, 4711, 0, False, 100.0, 1, exitcodes)
+                do_step(p, 'p', 'g', ('finish', sts, 200.0), {'startsecs': 1, 'exitcodes': list(exitcodes)})
     for _ in range(150 if quick else 4000):
         name = rng.choice(NAMES_ASCII + [u'prôc'])
         grp = rng.choice(['g', None, u'grüp'])
@@ -738,7 +761,7 @@ def _run(chk, wd, proved):
             else:
                 if rng.random() < 0.4:
                     p.killing = True
-                step = ('finish', rng.choice([0, 256, 512, 9, 15]), now)
+                step = ('finish', rng.choice([0, 256, 512, 9, 15, 130 << 8, 255 << 8, 15 | 0x80]), now)
             do_step(p, name, grp, step, cfg)
 
     # ---------------- H. group and daemon-state notifications of the real Supervisor
@@ -1630,7 +1653,7 @@ def _run(chk, wd, proved):
     cov['samples'] = samples + [{'ticks': tick_m[5]}, {'proc': _jsonable(proc_m[300])}, {'sup': sup_m[-1]}]
 
 
-def _judge_proc(chk, snap, step, p, rendered, name, group, raised):
+def _judge_proc(chk, snap, step, p, rendered, name, group, raised, cfg=None):
     """Independent monitor for one primitive step on a real Subprocess."""
     from supervisor import states
     st0, pid0, bo0 = snap
@@ -1657,6 +1680,14 @@ def _judge_proc(chk, snap, step, p, rendered, name, group, raised):
             chk.violation({'kind': 'finish: PROCESS_STATE notification does not carry the values at the moment of the change',
                            'state_before': st0, 'pid_before': pid0, 'step': list(step), 'events': rendered})
             return
+        if 'expected' in toks and cfg is not None:
+            sts = step[1]
+            true_es = (sts >> 8) & 0xff if (sts & 0x7f) == 0 else -1
+            if toks['expected'] != str(int(true_es in cfg['exitcodes'])):
+                chk.violation({'kind': 'finish: `expected` in PROCESS_STATE_EXITED is not 1 exactly when the exit status of the child is '
+                                       'one of the configured exitcodes', 'wait_status': sts, 'true_exit_status': true_es,
+                               'exitcodes': cfg['exitcodes'], 'state_before': st0, 'events': rendered})
+                return
         nxt = [k for k, v in vars(states.ProcessStates).items() if not k.startswith('__') and
                ('ProcessState%sEvent' % k.capitalize()) == cn]
         if len(nxt) != 1:
